@@ -158,13 +158,41 @@ def generate(seed: int, tier: str) -> dict:
         programs = [[gen_job(st, rng, tier, seed, t, j) for j in range(rng.randint(1, 3))] for t in range(nthreads)]
         return {"prop": "C15", "engine": "threads", "kind": "schedule", "seed": seed, "tier": tier, "programs": programs,
                 "switch_p": rng.choice([0.002, 0.005, 0.01, 0.02, 0.05, 0.1]), "gc_p": rng.choice([0.0, 0.0002, 0.001]), "schedule": None}
-    if r < 0.85:
+    if r < 0.8:
         from .props import gen_session_case
 
         c = gen_session_case("C15", seed, tier, scoped_bias=0.25, fail=True, multiline_boost=True)
         c["kind"] = "purity"
         c["engine"] = "session"
         return c
+    if r < 0.97:
+        # rebuild-insertion invariance: the same item operations with and without interleaved rebuild() calls
+        from . import mapping
+
+        c = mapping.generate(seed, tier)
+        rr = st("rebuilds")
+        ops = [o for o in c["ops"] if o["op"] != "restart"]
+        # a value that changes its line span and back, preferably inside a one-line set
+        dec = reader.decode(c["doc"])
+        if not dec.error and dec.shape.editable and rr.random() < 0.7:
+            data = dec.doc.data
+            inline = []
+            tgt = dec.shape.target
+            if b"\n" not in data[tgt.start_byte:tgt.end_byte]:
+                inline.append([])
+            for m in dec.target:
+                if m[0] == "b" and len(m[1]) == 1 and m[2][0] == "set" and mapping._bare(m[1][0]):
+                    inline.append([m[1][0]])
+            if inline:
+                prefix = rr.choice(inline)
+                key = rr.choice(["a", "b", "n"])
+                tagv = seed % 9000 + 1000
+                pair = [{"op": "set", "on": "doc" if not prefix else "nested", "keys": prefix + [key], "value": {"expr": "[\n  %d\n  %d\n]" % (tagv, tagv + 1)}},
+                        {"op": "set", "on": "doc" if not prefix else "nested", "keys": prefix + [key], "value": tagv + 2}]
+                pos = rr.randint(0, len(ops))
+                ops = ops[:pos] + pair + ops[pos:]
+        return {"prop": "C15", "engine": "mapping", "kind": "invariance", "seed": seed, "tier": tier, "doc": c["doc"],
+                "ops": ops, "rebuild_after": [i for i in range(len(ops)) if rr.random() < 0.6]}
     jobs = [gen_job(st, rng, tier, seed, t, 0) for t in range(rng.randint(3, 6))]
     jobs = [j for j in jobs if j["kind"] == "text"] or [{"kind": "text", "doc": "{ a = 1; }\n", "ops": [], "refs": False}]
     order = list(range(len(jobs)))
@@ -189,7 +217,59 @@ def execute(case: dict):
         return execute_schedule(case)
     if kind == "purity":
         return execute_purity(case)
+    if kind == "invariance":
+        return execute_invariance(case)
     return execute_order(case)
+
+
+def execute_invariance(case: dict):
+    """rebuild() must be an observer: sprinkling it between item operations may not change any later result."""
+    from . import mapping
+
+    viols: list[Violation] = []
+    stats: dict = {"invariance_items": 1, "ops": 0}
+
+    def run(with_rebuilds: bool):
+        world = mapping._World(case["doc"])
+        outcomes = []
+        for i, op in enumerate(case["ops"]):
+            try:
+                cont = world.container(op["on"], op["keys"])
+                if op["op"] == "get":
+                    got = cont[op["keys"][-1]]
+                    outcomes.append("got:" + (got.rebuild() if hasattr(got, "rebuild") else repr(got)))
+                elif op["op"] == "set":
+                    cont[op["keys"][-1]] = mapping.to_python(op["value"])
+                    outcomes.append("set")
+                else:
+                    del cont[op["keys"][-1]]
+                    outcomes.append("del")
+            except Exception as e:  # noqa: BLE001
+                outcomes.append("EXC:" + type(e).__name__)
+            if with_rebuilds and i in case["rebuild_after"]:
+                try:
+                    world.src.rebuild()
+                except Exception as e:  # noqa: BLE001
+                    outcomes.append("REBUILD-EXC:" + type(e).__name__)
+        try:
+            final = world.src.rebuild()
+        except Exception as e:  # noqa: BLE001
+            final = "EXC:" + type(e).__name__
+        return outcomes, final
+
+    try:
+        a = run(False)
+        b = run(True)
+    except Exception as e:  # noqa: BLE001
+        stats["skip:setup_failed"] = 1
+        return viols, stats, []
+    stats["ops"] = len(case["ops"])
+    stats["interleaved_rebuilds"] = len(case["rebuild_after"])
+    if a != b:
+        what = "final text" if a[0] == b[0] else "an operation's outcome"
+        viols.append(Violation("C15.rebuild_observable", "interleaving rebuild() calls between item operations changed %s: %r vs %r" % (what, a[1][-160:], b[1][-160:]), None,
+                               {"kind": "invariance"}))
+    return viols, stats, [digest([case["doc"], case["ops"], case["rebuild_after"]])]
 
 
 def execute_schedule(case: dict):
@@ -441,6 +521,17 @@ class C15Property:
                         c["schedule"] = sched[:start] + sched[start + size:]
                         yield c
                     size //= 2
+        elif kind == "invariance":
+            ops = case["ops"]
+            for i in range(len(ops)):
+                c = dict(case)
+                c["ops"] = ops[:i] + ops[i + 1:]
+                c["rebuild_after"] = [k if k < i else k - 1 for k in case["rebuild_after"] if k != i]
+                yield c
+            for k in case["rebuild_after"]:
+                c = dict(case)
+                c["rebuild_after"] = [x for x in case["rebuild_after"] if x != k]
+                yield c
         elif kind == "purity":
             ops = case["ops"]
             for i in range(len(ops)):
